@@ -6,6 +6,7 @@ mod ast_walk_gen;
 mod memfs;
 mod parse_obs;
 mod pool;
+mod pos_obs;
 mod srv;
 mod tree_obs;
 mod util;
@@ -22,6 +23,7 @@ fn handle(item: &Value) -> Value {
         "tree" => tree_obs::tree_item(item),
         "analysis" => ws_obs::analysis_item(item),
         "session" => srv::session_item(item),
+        "pos" => pos_obs::pos_item(item),
         other => json!({"id": item.get("id"), "outcome": "ToolError", "msg": format!("unknown kind {other}")}),
     }
 }
